@@ -319,6 +319,9 @@ contains
                nodes(:, num_nodes + 1 - pascal_index))
        end do
     end do
+    ! The junction point was accumulated in two different orders; the
+    ! two halves must share it exactly.
+    right_nodes(:, 1) = left_nodes(:, num_nodes)
 
   end subroutine subdivide_nodes_generic
 
